@@ -806,7 +806,7 @@ def new_bounds(rng, sy, clo, chi, allow):
     return lo, hi, what
 
 
-def gen_reconf_ops(rng, sy, nphases):
+def gen_reconf_ops(rng, sy, nphases, steer=False, resetup=True):
     """ops of one reconfiguration history: solve, then per phase a reconfiguration group and another solve.  A group either
     clears the planner (then anything may change: bounds narrower / shifted / wider, durations, step size; optionally
     followed by setup) or lets it continue (then only what leaves the kept tree meaningful changes: wider or — judged
@@ -818,7 +818,8 @@ def gen_reconf_ops(rng, sy, nphases):
         cleared = rng.chance(2, 3)
         ops += ["clear"] if cleared else ["clearsol"]
         nchg = 0
-        if rng.chance(3, 4):
+        # (a steering function answers with whatever control it computes: the harness's one assumes the bounds [-1, 1])
+        if rng.chance(3, 4) and not steer:
             lo, hi, what = new_bounds(rng, sy, clo, chi, ["narrower", "narrower", "shifted", "wider"] if cleared else ["wider", "wider", "narrower", "shifted"])
             ops += ["cb", B(lo[0]), B(lo[1]), B(hi[0]), B(hi[1])]
             clo, chi = lo, hi
@@ -834,9 +835,14 @@ def gen_reconf_ops(rng, sy, nphases):
             dt = rng.choice([0.1, 0.25, 0.3, 0.5, 0.7, 0.15])
             ops += ["dt", B(dt)]
             tags.append("clear+step-size")
-        if rng.chance(1, 3):
+        # setup() again only on a cleared planner: control::EST (Grid::setDimension on a non-empty grid: bare `throw;`), PDST
+        # (deletes the BSP its motions point into) and Syclop (buildGraph on the built graph) do not survive setup() on a
+        # planner that holds a tree — outside C02 (no solution is reported), noted in notes/C02.md.  control::Syclop::setup() is not
+        # repeatable at all (buildGraph() appends the decomposition's regions to graph_ a second time; the next solve() overruns
+        # the region-sized vectors of defaultComputeLead): resetup = False for SyclopRRT / SyclopEST, same note
+        if cleared and resetup and rng.chance(1, 3):
             ops += ["setup"]
-            tags.append("setup")
+            tags.append("clear+setup")
         ops += ["solve", str(rng.choice([100, 800, 2500]))]
         if rng.chance(1, 4):
             ops += ["solve", str(rng.choice([50, 400]))]
@@ -1110,7 +1116,8 @@ def gen_nest_lines(rng, nrand):
             for fi in forms:
                 # the nested call inside every validity query of a 6-step outer call that runs into the wall or not
                 for at in ((0, 1, 2, 4, 7) if fo == ["single"] or fi == ["single"] else (1, 3)):
-                    one(kind, 0, wall if at % 2 else [], "v", at, ("pwv", fo, 6, st, ct), ("pwv", fi, 5, st2, ct2))
+                    # (the nested call propagates backward at every other position: opposite sign of the step size)
+                    one(kind, 0, wall if at % 2 else [], "v", at, ("pwv", fo, 6, st, ct), ("pwv", fi, 5 if at % 4 < 2 else -5, st2, ct2))
             one(kind, 0, [], "p", 2, ("prop", fo, 5, st, ct), ("pwv", ["single"], 4, st2, ct2))
             one(kind, 0, [], "p", 1, ("pwv", fo, 5, st, ct), ("prop", ["vec", "1"], -3, st2, ct2))
     for _ in range(nrand):
@@ -1318,6 +1325,7 @@ def run(ck):
         ck.traces_validated += 1
         # the harness appends its call counters to pwv/prop lines after " | " (checked by pwv_oracle, not by the model)
         strip = [o.partition(" | ")[0] if ln.split()[0] in ("pwv", "prop") else o for ln, o in zip(lines, impl)] + impl[len(lines):]
+        judged_at = None     # line at which the spec oracle already reported a failure WITH its input
         for jdx, (ln, o) in enumerate(zip(lines, impl)):
             ck.count("op:" + ln.split()[0])
             ck.case(ln, o != "bad-op" and ln.split()[0] in ("pwv", "prop", "sampler", "dsampler", "nest"))
@@ -1335,6 +1343,7 @@ def run(ck):
                           expected="a draw depends on the control-space bounds / durations / step size at draw time", observed=[o[:2000], rbad],
                           engine="control")
                 ck.log("property failure: control sampler under reconfiguration: %s" % rbad)
+                judged_at = jdx
                 break
             if ln.startswith("nest ") and o != "bad-op":
                 al = nest_alone_lines(ln)
@@ -1352,6 +1361,7 @@ def run(ck):
                                   expected="a propagation nested inside another one on the same SpaceInformation: both results as for each call alone",
                                   observed=[o[:2000], nbad], engine="control")
                         ck.log("property failure: propagate/propagateWhileValid re-entrancy: %s" % nbad)
+                        judged_at = jdx
                         break
             if "alias" in ln.split() and ln.startswith("pwv") and o.startswith("r=0 ") and int(ln.split("alias ")[1].split()[0]) != 0:
                 ck.count("pwv:aliased-first-step-invalid (F13: buffer keeps the invalid state)")
@@ -1361,18 +1371,23 @@ def run(ck):
                           script=["control", ln], expected="PathControl replays its own (state, control, duration) triples",
                           observed=[o[:3000], pbad], engine="control")
                 ck.log("property failure: PathControl %s: %s" % (ln.split()[0], pbad))
+                judged_at = jdx
                 break
             bad = pwv_oracle(ln, o)
             if bad:
                 ck.report({"engine": "control", "planner": "-", "clause": "pwv-spec", "what": bad}, script=["control", ln],
                           expected="propagateWhileValid spec", observed=[o, bad], engine="control")
                 ck.log("propagateWhileValid spec failure: %s on `%s`" % (bad, ln[:200]))
+                judged_at = jdx
                 break
         if rc != 0:
             ck.report({"engine": "control", "planner": "-", "clause": "crash", "what": "harness rc=%s" % rc}, script=s,
                       observed=[(err or "")[-2000:]], engine="control")
         dpos = ck.first_diff(strip, model)
-        if dpos is not None and rc == 0:
+        if dpos is not None and rc == 0 and dpos == judged_at:
+            # the model and the implementation differ on exactly the line the spec oracle has just reported with its input
+            ck.count("correspondence-disagreement-on-a-line-already-reported-with-input")
+        elif dpos is not None and rc == 0:
             ck.disagreements += 1
             ck.report({"engine": "control", "what": "model/implementation disagreement (propagation core)"},
                       script=["control", lines[dpos] if dpos < len(lines) else "<eof>"],
@@ -1618,8 +1633,8 @@ def run(ck):
                 pb = std_problem(kind, rr2.below(7), rr2.choice(["empty", "wall", "two"]), "pos") if rep % 2 == 0 else random_problem(rr2, kind)
                 if planner.startswith("Syclop"):
                     pb.goal_kind = "pos"
-                ops, tags = gen_reconf_ops(rr2, pb.sy, rr2.choice([1, 2, 2]))
                 steer = 1 if (kind == "point" and rr2.chance(1, 3)) else 0
+                ops, tags = gen_reconf_ops(rr2, pb.sy, rr2.choice([1, 2, 2]), steer=bool(steer), resetup=not planner.startswith("Syclop"))
                 extra = (["steer=1"] if steer else []) + (["nest=%d" % rr2.choice([1, 3, 7])] if rr2.chance(1, 3) else [])
                 line = " ".join(["hist", planner] + pb.toks() + ["k=%d" % (1 if steer else rr2.choice([1, 2, 3])), "bias=" + B(rr2.choice([0.05, 0.0, 0.3])),
                                                                  "seed=%d" % rr2.below(100000)] + extra + ["ops"] + ops)
